@@ -1,5 +1,6 @@
 import Pyunicorn.Model.Proto
 import Pyunicorn.Model.Equivariance
+import Pyunicorn.Model.Relabel
 /-! Line-protocol driver for C04. -/
 open Pyunicorn Pyunicorn.Proto Pyunicorn.Nsi
 
@@ -34,8 +35,150 @@ def showGr (G : Gr) : String :=
   s!"{G.n} " ++ showBoolMat (idx.map fun i => idx.map fun j => G.adj i j) ++ " " ++
     showRats (idx.map G.w) ++ " " ++ showRatMat (idx.map fun i => idx.map fun j => G.la 0 i j)
 
+/-! ### round 3: the models of C03 / C11 / C18 / C12 / C07 evaluated on the renumbered input -/
+section relabelled
+open Pyunicorn.Relabel
+
+def adjFn (m : List (List Bool)) : Nat → Nat → Bool := fun i j => (m.getD i []).getD j false
+def ratFn (v : List Rat) : Nat → Rat := fun i => v.getD i 0
+def ratMatFn (m : List (List Rat)) : Nat → Nat → Rat := fun i j => (m.getD i []).getD j 0
+def permFn (p : List Nat) : Nat → Nat := fun a => p.getD a a
+def showOptRat : Option Rat → String
+  | none => "nan"
+  | some r => showRat r
+def showOptNat : Option Nat → String
+  | none => "inf"
+  | some d => toString d
+def optRats (s : String) : List (Option Rat) :=
+  (splitTok s ",").map fun t => if t == "x" then none else rat? t
+def optRatMat (s : String) : List (List (Option Rat)) := (splitTok s ";").map optRats
+def optMatFn (m : List (List (Option Rat))) : Nat → Nat → Option Rat :=
+  fun i j => (m.getD i []).getD j none
+def mrows (n : Nat) (f : Nat → Nat → String) : String :=
+  if n = 0 then "-" else join ((List.range n).map fun i => join ((List.range n).map (f i))) ";"
+def mvec (n : Nat) (f : Nat → String) : String :=
+  if n = 0 then "-" else join ((List.range n).map f)
+def showOptRats (l : List (Option Rat)) : String :=
+  if l.isEmpty then "-" else join (l.map showOptRat)
+
+/-- `Pyunicorn.Net` (C03) on `permuted_copy(perm)` -/
+def netRelabelled (perm dirS adjS wS : String) : String :=
+  let idx := permFn (nats perm)
+  let M := boolMat adjS; let n := M.length; let dir := dirS == "1"
+  let a := mat (adjFn M) idx
+  let w := vec (ratFn (rats wS)) idx
+  let D := (List.range n).map fun i => Net.bfs n a i
+  let d : Nat → Nat → Option Nat := fun i j => (D.getD i []).getD j none
+  join [
+    mvec n fun i => toString (Net.indeg n a i), mvec n fun i => toString (Net.outdeg n a i),
+    mvec n fun i => toString (Net.degree dir n a i), mvec n fun i => toString (Net.bildeg n a i),
+    mvec n fun i => showRat (Net.cycleC n a i), mvec n fun i => showRat (Net.midC n a i),
+    mvec n fun i => showRat (Net.inC n a i), mvec n fun i => showRat (Net.outC n a i),
+    mvec n fun i => showRat (Net.localClustering n a i), showOptRat (Net.transitivity n a),
+    mrows n fun i j => showOptRat (Net.matching n a i j),
+    mrows n fun i j => showOptNat (d i j),
+    showRat (Net.globalEfficiency n d), showOptRat (Net.avgPathLengthU n d),
+    toString (Net.diameter n d), mvec n fun i => showOptRat (Net.closeness n d i),
+    mvec n fun i => showRat (Net.nsiCloseness n d w i),
+    showNats (Net.coreness n a dir),
+    mvec n fun i => showRat (Net.nsiIndeg n a w i), mvec n fun i => showRat (Net.nsiOutdeg n a w i),
+    mvec n fun i => showRat (Net.nsiDegree dir n a w i),
+    mvec n fun i => showRat (Net.nsiLocalClustering n a w i)] "|"
+
+/-- `Pyunicorn.Cross` (C11) on the renumbered network with the renumbered node lists -/
+def crossRelabelled (perm dirS adjS wS l1 l2 dS : String) : String :=
+  let idx := permFn (nats perm)
+  let M := boolMat adjS; let n := M.length; let dir := dirS == "1"
+  let A := mat (adjFn M) idx
+  let w := vec (ratFn (rats wS)) idx
+  let D := mat (optMatFn (optRatMat dS)) idx
+  let P1 := nodes n idx (nats l1); let P2 := nodes n idx (nats l2)
+  join [
+    showNats P1, showNats P2,
+    showNats (Cross.crossDegree dir A P1 P2), showOptRat (Cross.crossLinkDensity A P1 P2),
+    toString (Cross.numberCrossLinks A P1 P2), showRat (Cross.crossTransitivity A P1 P2),
+    showRats (Cross.crossLocalClustering dir A P1 P2),
+    showOptRat (Cross.crossGlobalClustering dir A P1 P2),
+    showOptRat (Cross.crossAPL D P1 P2), showRats (Cross.crossCloseness n D P1 P2),
+    toString (Cross.numberInternalLinks dir A P1), showOptRat (Cross.internalLinkDensity dir A P1),
+    showOptRat (Cross.internalAPL D P1), showRats (Cross.internalCloseness D P1),
+    showOptRat (Cross.internalGlobalClustering n A P1),
+    showRats (Cross.nsiCrossDegree A w P1 P2), showRats (Cross.nsiCrossLocalClustering A w P1 P2),
+    showOptRat (Cross.nsiCrossTransitivity A w P1 P2), showOptRat (Cross.nsiCrossMeanDegree A w P1 P2),
+    showOptRat (Cross.nsiCrossEdgeDensity A w P1 P2),
+    showOptRat (Cross.nsiCrossGlobalClustering A w P1 P2),
+    showOptRats (Cross.nsiCrossCloseness n D w P1 P2)] "|"
+
+/-- `Pyunicorn.Circuit` (C18) on the renumbered resistances; the first field says whether both
+certified pseudo-inverses exist and the renumbered old one is a generalised inverse of the new
+Laplacian (`isGinv`, the hypothesis of `res_effRes_relabel`) -/
+def resRelabelled (perm adjS resS : String) : String :=
+  let idx := permFn (nats perm)
+  let M := boolMat adjS; let n := M.length
+  let adj := mat (adjFn M) idx
+  let res := mat (ratMatFn (ratMat resS)) idx
+  let adm := Circuit.admittance adj res
+  let L := Circuit.laplacian n adm
+  let L0 := Circuit.laplacian n (Circuit.admittance (adjFn M) (ratMatFn (ratMat resS)))
+  match Circuit.pinvCert n L, Circuit.pinvCert n L0 with
+  | some R, some R0 =>
+    join [
+      (if Circuit.isGinv n L (mat R0 idx) then "ginv" else "not-ginv"),
+      mrows n fun i j => showRat (Circuit.effRes R i j),
+      mvec n fun i => showRat (Circuit.ercc n R i),
+      showRat (Circuit.averageOf n (Circuit.allPairs n R)),
+      mvec n fun i => showRat (Circuit.admDegree n adm i),
+      mvec n fun i => showRat (Circuit.anad n adj adm i),
+      mvec n fun i => showRat (Circuit.localClustering n adj adm i),
+      showRat (Circuit.globalClustering n adj adm),
+      mrows n fun i j => showRat (Circuit.effRes R0 i j),
+      mvec n fun i => showRat (Circuit.vcfbKernel n 1 1 adm R i),
+      mrows n fun i j => showRat (Circuit.ecfbKernel n 1 1 adm R i j)] "|"
+  | _, _ => "no-pinv"
+
+def geoT : Geo.Trig Rat := { sin := id, cos := id, arccos := id, sqrt := id, rad := id }
+
+/-- `Pyunicorn.Geo` (C12) over `Rat` with `sqrt = id` (squared Euclidean distances) on the
+renumbered coordinate sequences; link-distance measures of a distance matrix renumbered with the
+nodes -/
+def geoRelabelled (perm dirS dimS xS adjS dS : String) : String :=
+  let idx := permFn (nats perm)
+  let X := ratMat xS                      -- rows = dimensions
+  let Am := ratMat adjS; let n := Am.length; let dir := dirS == "1"
+  let x := cols (ratMatFn X) idx
+  let A := mat (ratMatFn Am) idx
+  let D := mat (ratMatFn (ratMat dS)) idx
+  let sq := Geo.euclideanDistance geoT x dimS.toNat! n
+  join [
+    mrows n fun i j => showRat (sq i j),
+    mvec n fun i => showOptRat (Geo.avgALD dir D A n (n : Rat) false i),
+    mvec n fun i => showOptRat (Geo.avgALD dir D A n (n : Rat) true i),
+    mvec n fun i => showOptRat (Geo.outALD D A n (n : Rat) false i),
+    mvec n fun i => showOptRat (Geo.inALD D A n (n : Rat) false i),
+    mvec n fun i => showOptRat (Geo.maxLinkDistNet D A n i)] "|"
+
+def optV (s : String) : List (List Recurrence.V) :=
+  (splitTok s ";").map fun r => (splitTok r ",").map fun t => if t == "x" then none else rat? t
+
+/-- `Pyunicorn.Recurrence` (C07): recurrence-network adjacency of the reordered state vectors -/
+def recRelabelled (perm metric epsS mvS embS : String) : String :=
+  let idx := permFn (nats perm)
+  let emb := optV embS; let n := emb.length
+  let m : Recurrence.Metric := if metric == "manhattan" then .manhattan
+    else if metric == "euclidean" then .euclidean else .supremum
+  let eps := (rat? epsS).getD 0
+  showBoolMat (Recurrence.zeroStride
+    (Recurrence.fixedThreshold m (rows n idx emb) eps (mvS == "1")) (n + 1))
+
+end relabelled
+
 def answer (toks : List String) : String :=
   match toks with
+  | ["net", perm, dir, adj, w] => netRelabelled perm dir adj w
+  | ["cross", perm, dir, adj, w, l1, l2, d] => crossRelabelled perm dir adj w l1 l2 d
+  | ["res", perm, adj, res] => resRelabelled perm adj res
+  | ["geo", perm, dir, dim, x, adj, d] => geoRelabelled perm dir dim x adj d
+  | ["rec", perm, metric, eps, mv, emb] => recRelabelled perm metric eps mv emb
   | ["eval", n, adj, w, la0, g0, g1, dist, sig] => evalAll (mkGr n adj w la0 g0 g1 dist sig)
   | ["relabel", perm, n, adj, w, la0, g0, g1, dist, sig] =>
       let p := nats perm
